@@ -11,6 +11,13 @@ package main
 //	                                           slp / bsp  = sl / bs over POINTER records (*T)
 //	                                     stack = comma separated descriptors  <k><F><dir>:  k = f (field-name
 //	                                           descriptor) | t (transformer descriptor), F = A|B|C|D, dir = +|-
+//	F <api> <prefix>/<sib>/<sib>[/<sib>]: rec ; ...   FORKED builders: a prefix builder (stack) and 2-3 builders derived from it
+//	                                     (each <sib> a stack appended by ThenWith… calls); all are derived first, then EVERY
+//	                                     builder sorts (api tl = ToSortedList, bs = Sort); observation "[..] | [..] | …":
+//	                                     prefix builder first, then the siblings in derivation order
+//	T <api> X=<stack>/Y=<stack>[/Z=<stack>]: rec ; ...   three DISTINCT record types that all print as "main.row" but order
+//	                                     their fields differently (Z has a non-Comparable field early), sorted one after the other
+//	                                     in the same process (api sl | tl); observation "[..] | [..] | …"
 //	C <api> <cmp>: rec ; rec ; ...       api = sort | slice | ssort | sidx | isort | iidx
 //	                                           (Sort, SortSlice, Stream.Sort, Stream.SortByIndex, ForInterface twins)
 //	                                     cmp = a< | a> | am | b< | ab | no   (strict weak orders, several with many ties)
@@ -245,6 +252,10 @@ func c19Run(line string) string {
 		recs[k] = r
 	}
 	switch head[0] {
+	case "F":
+		return c19RunFork(api, strings.Split(head[2], "/"), recs)
+	case "T":
+		return c19RunTypes(api, strings.Split(head[2], "/"), recs)
 	case "D":
 		ds, ok := c19ParseStack(head[2])
 		if !ok {
@@ -388,6 +399,230 @@ func c19Run(line string) string {
 		}
 	}
 	return "bad-case"
+}
+
+// ---------------------------------------------------------------------------------------------
+// forked builders
+
+func c19Derive(b fpgo.SortDescriptorsBuilder[c19Rec], stack []c19D, salt int) fpgo.SortDescriptorsBuilder[c19Rec] {
+	for k, d := range stack {
+		switch {
+		case d.kind == 'f':
+			b = b.ThenWithFieldName(string(d.field), d.asc)
+		case (k+salt)%2 == 1:
+			b = b.ThenWith(fpgo.NewSimpleSortDescriptor(c19Transformer(d.field), d.asc))
+		default:
+			b = b.ThenWithTransformerFunctor(c19Transformer(d.field), d.asc)
+		}
+	}
+	return b
+}
+
+func c19RunFork(api string, parts []string, recs []c19Rec) string {
+	if len(parts) < 2 {
+		return "bad-case"
+	}
+	stacks := make([][]c19D, len(parts))
+	for i, p := range parts {
+		ds, ok := c19ParseStack(p)
+		if !ok {
+			return "bad-case"
+		}
+		stacks[i] = ds
+	}
+	// derive everything first
+	builders := make([]fpgo.SortDescriptorsBuilder[c19Rec], len(parts))
+	builders[0] = c19Derive(fpgo.NewSortDescriptorsBuilder[c19Rec](), stacks[0], 0)
+	for i := 1; i < len(parts); i++ {
+		builders[i] = c19Derive(builders[0], stacks[i], i)
+	}
+	// then sort with each of them, the first-derived ones last
+	outs := make([]string, len(parts))
+	snapshot := c19Ids(recs)
+	for i := len(parts) - 1; i >= 0; i-- {
+		switch api {
+		case "tl":
+			outs[i] = c19Ids(builders[i].ToSortedList(recs...))
+			if c19Ids(recs) != snapshot {
+				outs[i] += " mutated"
+			}
+		case "bs":
+			cp := append([]c19Rec(nil), recs...)
+			builders[i].Sort(cp)
+			outs[i] = c19Ids(cp)
+		default:
+			return "bad-case"
+		}
+	}
+	return strings.Join(outs, " | ")
+}
+
+// ---------------------------------------------------------------------------------------------
+// distinct record types with the same printed name ("main.row") and different field orders
+
+func c19SortTyped[T any](api string, ds []c19D, rows []T, id func(T) int,
+	tr func(field byte) fpgo.TransformerFunctor[T, fpgo.Comparable[interface{}]]) string {
+	var sorted []T
+	before := make([]int, len(rows))
+	for i, r := range rows {
+		before[i] = id(r)
+	}
+	if api == "sl" {
+		var sds []fpgo.SortDescriptor[T]
+		for _, d := range ds {
+			if d.kind == 'f' {
+				sds = append(sds, fpgo.NewFieldSortDescriptor[T](string(d.field), d.asc))
+			} else {
+				sds = append(sds, fpgo.NewSimpleSortDescriptor(tr(d.field), d.asc))
+			}
+		}
+		sorted = fpgo.SortedListBySortDescriptors(sds, rows...)
+	} else {
+		b := fpgo.NewSortDescriptorsBuilder[T]()
+		for _, d := range ds {
+			if d.kind == 'f' {
+				b = b.ThenWithFieldName(string(d.field), d.asc)
+			} else {
+				b = b.ThenWithTransformerFunctor(tr(d.field), d.asc)
+			}
+		}
+		sorted = b.ToSortedList(rows...)
+	}
+	var sb strings.Builder
+	sb.WriteByte('[')
+	for i, r := range sorted {
+		if i > 0 {
+			sb.WriteByte(' ')
+		}
+		sb.WriteString(strconv.Itoa(id(r)))
+	}
+	sb.WriteByte(']')
+	for i, r := range rows {
+		if before[i] != id(r) {
+			return sb.String() + " mutated"
+		}
+	}
+	return sb.String()
+}
+
+func c19TypedX(api string, ds []c19D, recs []c19Rec) string {
+	type row struct {
+		ID int
+		A  fpgo.ComparableOrdered[int]
+		B  fpgo.ComparableString
+		C  fpgo.ComparableOrdered[int]
+		D  fpgo.ComparableOrdered[string]
+	}
+	rows := make([]row, len(recs))
+	for i, r := range recs {
+		rows[i] = row{r.ID, r.A, r.B, r.C, r.D}
+	}
+	return c19SortTyped(api, ds, rows, func(r row) int { return r.ID },
+		func(f byte) fpgo.TransformerFunctor[row, fpgo.Comparable[interface{}]] {
+			return func(r row) fpgo.Comparable[interface{}] {
+				switch f {
+				case 'A':
+					return r.A
+				case 'B':
+					return r.B
+				case 'C':
+					return r.C
+				}
+				return r.D
+			}
+		})
+}
+
+func c19TypedY(api string, ds []c19D, recs []c19Rec) string {
+	type row struct {
+		ID int
+		C  fpgo.ComparableOrdered[int] // where X has A (same key type: a wrong column goes unnoticed by the type system)
+		D  fpgo.ComparableOrdered[string]
+		A  fpgo.ComparableOrdered[int]
+		B  fpgo.ComparableString
+	}
+	rows := make([]row, len(recs))
+	for i, r := range recs {
+		rows[i] = row{r.ID, r.C, r.D, r.A, r.B}
+	}
+	return c19SortTyped(api, ds, rows, func(r row) int { return r.ID },
+		func(f byte) fpgo.TransformerFunctor[row, fpgo.Comparable[interface{}]] {
+			return func(r row) fpgo.Comparable[interface{}] {
+				switch f {
+				case 'A':
+					return r.A
+				case 'B':
+					return r.B
+				case 'C':
+					return r.C
+				}
+				return r.D
+			}
+		})
+}
+
+func c19TypedZ(api string, ds []c19D, recs []c19Rec) string {
+	type row struct {
+		Note string // not a Comparable
+		B    fpgo.ComparableString
+		ID   int
+		D    fpgo.ComparableOrdered[string]
+		C    fpgo.ComparableOrdered[int]
+		A    fpgo.ComparableOrdered[int]
+	}
+	rows := make([]row, len(recs))
+	for i, r := range recs {
+		rows[i] = row{"n", r.B, r.ID, r.D, r.C, r.A}
+	}
+	return c19SortTyped(api, ds, rows, func(r row) int { return r.ID },
+		func(f byte) fpgo.TransformerFunctor[row, fpgo.Comparable[interface{}]] {
+			return func(r row) fpgo.Comparable[interface{}] {
+				switch f {
+				case 'A':
+					return r.A
+				case 'B':
+					return r.B
+				case 'C':
+					return r.C
+				}
+				return r.D
+			}
+		})
+}
+
+func c19RunTypes(api string, items []string, recs []c19Rec) string {
+	if api != "sl" && api != "tl" {
+		return "bad-case"
+	}
+	outs := make([]string, len(items))
+	for i, it := range items {
+		if len(it) < 3 || it[1] != '=' {
+			return "bad-case"
+		}
+		ds, ok := c19ParseStack(it[2:])
+		if !ok {
+			return "bad-case"
+		}
+		// each sort is guarded on its own: a panic in one type must not hide the others
+		func() {
+			defer func() {
+				if r := recover(); r != nil {
+					outs[i] = "panic"
+				}
+			}()
+			switch it[0] {
+			case 'X':
+				outs[i] = c19TypedX(api, ds, recs)
+			case 'Y':
+				outs[i] = c19TypedY(api, ds, recs)
+			case 'Z':
+				outs[i] = c19TypedZ(api, ds, recs)
+			default:
+				outs[i] = "bad-case"
+			}
+		}()
+	}
+	return strings.Join(outs, " | ")
 }
 
 func c19RunOrdered(api, ty string, toks []string) string {
@@ -720,6 +955,187 @@ func c19Gen(tier string, rng *rand.Rand, emit func(string)) map[string]interface
 		_, wn := c19StackFields(ds)
 		emitD(ds, randList(wn), false)
 		counts["randomD"]++
+	}
+
+	// (4b) FORKED builders: a prefix builder and 2-3 siblings derived from it; the data ties on the prefix
+	descsOver := func(fields []byte) []c19D {
+		var r []c19D
+		for _, f := range fields {
+			for _, k := range []byte{'f', 't'} {
+				for _, a := range []bool{true, false} {
+					r = append(r, c19D{k, f, a})
+				}
+			}
+		}
+		return r
+	}
+	forkApis := []string{"tl", "bs"}
+	forkRot := 0
+	emitF := func(pre []c19D, sibs [][]c19D, body string) {
+		parts := []string{c19StackString(pre)}
+		for _, sb := range sibs {
+			parts = append(parts, c19StackString(sb))
+		}
+		emit("F " + forkApis[forkRot%2] + " " + strings.Join(parts, "/") + ": " + body)
+		forkRot++
+		counts["fork"]++
+	}
+	// exhaustive: every 1-descriptor prefix x every ordered pair of different sibling descriptors over the
+	// other fields x all lists <= 2 over 2 values per sibling field (prefix field constant: everything ties)
+	c19Stacks(1, func(pre []c19D) {
+		var others []byte
+		for _, f := range c19Fields {
+			if f != pre[0].field {
+				others = append(others, f)
+			}
+		}
+		sd := descsOver(others)
+		for _, s1 := range sd {
+			for _, s2 := range sd {
+				if s1 == s2 || (s1.field == s2.field && s1.asc == s2.asc) {
+					continue
+				}
+				if !thorough && s1.kind != s2.kind && s1.field != s2.field && (forkRot/7)%3 != 0 {
+					// quick: thin out the mixed-kind pairs
+					forkRot++
+					continue
+				}
+				fs := []byte{s1.field}
+				if s2.field != s1.field {
+					fs = append(fs, s2.field)
+				}
+				space := c19RecSpace(fs, 2, nil)
+				c19Lists(space, 2, func(body string) {
+					if strings.Contains(body, ";") {
+						emitF(pre, [][]c19D{{s1}, {s2}}, body)
+					}
+				})
+			}
+		}
+	})
+	// random: prefix of 1-2 descriptors, 2-3 siblings of 1 descriptor (sometimes 2), total length <= 3
+	// (a 3-key builder has capacity 4 in Go: forking it is outside the property's 1..3 keys)
+	nFork := 5000
+	if thorough {
+		nFork = 40000
+	}
+	all := descsOver(c19Fields)
+	for i := 0; i < nFork; i++ {
+		perm := rng.Perm(4)
+		np := 1 + rng.Intn(2)
+		pre := make([]c19D, np)
+		for j := range pre {
+			pre[j] = all[perm[j]*4+rng.Intn(4)]
+		}
+		rest := []byte{}
+		for _, pi := range perm[np:] {
+			rest = append(rest, c19Fields[pi])
+		}
+		sd := descsOver(rest)
+		ns := 2 + rng.Intn(2)
+		sibs := make([][]c19D, ns)
+		for j := range sibs {
+			sibs[j] = []c19D{sd[rng.Intn(len(sd))]}
+			if np == 1 && rng.Intn(4) == 0 {
+				d2 := sd[rng.Intn(len(sd))]
+				if d2.field != sibs[j][0].field {
+					sibs[j] = append(sibs[j], d2)
+				}
+			}
+		}
+		// data: prefix fields constant or 2-valued, sibling fields 2-3 valued, no nil for field-name kinds
+		wn := map[byte]bool{}
+		for _, f := range c19Fields {
+			wn[f] = true
+		}
+		for _, d := range pre {
+			if d.kind == 'f' {
+				wn[d.field] = false
+			}
+		}
+		for _, sb := range sibs {
+			for _, d := range sb {
+				if d.kind == 'f' {
+					wn[d.field] = false
+				}
+			}
+		}
+		n := 2 + rng.Intn(7)
+		l := make([]string, n)
+		for j := range l {
+			l[j] = randRec(wn, true)
+		}
+		emitF(pre, sibs, strings.Join(l, " ; "))
+	}
+
+	// (4c) same-named record types X, Y, Z sorted by field name one after the other in ONE case
+	typeApis := []string{"sl", "tl"}
+	tyRot := 0
+	tyOrders := [][]byte{{'X', 'Y'}, {'Y', 'X'}, {'X', 'Z'}, {'Z', 'Y'}, {'X', 'Y', 'Z'}, {'Z', 'X', 'Y'}, {'Y', 'Z', 'X'}}
+	fdescs := []c19D{}
+	for _, f := range c19Fields {
+		fdescs = append(fdescs, c19D{'f', f, true}, c19D{'f', f, false})
+	}
+	emitT := func(order []byte, stacks [][]c19D, body string) {
+		items := make([]string, len(order))
+		for i, ty := range order {
+			items[i] = string(ty) + "=" + c19StackString(stacks[i])
+		}
+		emit("T " + typeApis[tyRot%2] + " " + strings.Join(items, "/") + ": " + body)
+		tyRot++
+		counts["types"]++
+	}
+	// exhaustive: every type order x the SAME single field-name descriptor for all types x all lists <= 3 over
+	// records whose four columns are pairwise "anti-correlated" (a wrong column gives a different order)
+	tspace := []string{"0,=a,2,=Xy", "10,=B,0,=x", "2,=ab,-1,=", "0,=B,0,=Xy"}
+	for _, order := range tyOrders {
+		for _, d := range fdescs {
+			stacks := make([][]c19D, len(order))
+			for i := range stacks {
+				stacks[i] = []c19D{d}
+			}
+			c19Lists(tspace, 3, func(body string) {
+				if strings.Contains(body, ";") {
+					emitT(order, stacks, body)
+				}
+			})
+		}
+	}
+	nTypes := 3000
+	if thorough {
+		nTypes = 20000
+	}
+	for i := 0; i < nTypes; i++ {
+		order := tyOrders[rng.Intn(len(tyOrders))]
+		stacks := make([][]c19D, len(order))
+		shared := rng.Intn(3) > 0 // mostly the same field names for all types (that is where a per-name cache collides)
+		mk := func() []c19D {
+			k := 1 + rng.Intn(2)
+			perm := rng.Perm(4)
+			st := make([]c19D, k)
+			for j := range st {
+				kind := byte('f')
+				if rng.Intn(5) == 0 {
+					kind = 't'
+				}
+				st[j] = c19D{kind, c19Fields[perm[j]], rng.Intn(2) == 0}
+			}
+			return st
+		}
+		first := mk()
+		for j := range stacks {
+			if shared {
+				stacks[j] = first
+			} else {
+				stacks[j] = mk()
+			}
+		}
+		n := 2 + rng.Intn(9)
+		l := make([]string, n)
+		for j := range l {
+			l[j] = randRec(nil, rng.Intn(2) == 0)
+		}
+		emitT(order, stacks, strings.Join(l, " ; "))
 	}
 
 	// (5) comparator-based sorts
